@@ -1,8 +1,14 @@
 (* C18 commands (codes 18000 + sub). *)
 From Coq Require Import List ZArith NArith Bool Arith.
-From BS Require Import Base.Sexp Base.Types Model.Build Model.Adapter Model.Pos Run.D_C04.
+From BS Require Import Base.Sexp Base.Types Model.Build Model.Adapter Model.Pos Model.Tokenizer Run.D_C04.
 Import ListNotations.
 Open Scope Z_scope.
+
+(* the tokenizer model's output (s_tev: Run/D_C04.v) *)
+Definition s_item (it : item) : sexp :=
+  L [snat (it_off it); s_pos (it_pos it); sstr (it_span it); slist s_tev (it_evs it)].
+Definition s_status (st : status) : sexp :=
+  A (match st with Running => 0 | Rejected => 1 | OutOfFuel => 2 | Stuck => 3 end).
 
 Definition disp_c18 (sub : Z) (args : list sexp) : sexp :=
   match sub, args with
@@ -18,5 +24,12 @@ Definition disp_c18 (sub : Z) (args : list sexp) : sexp :=
   | 2, c :: hs :: _ =>
       let '(o, _, ok) := adapter_run (g_acfg c) [] (glist g_hev hs) in
       L [slist s_tagpos (tag_positions o); sbool ok]
+  (* (18003 text) -> Model.Tokenizer.tokenize with html.unescape left to the caller (identity here):
+     the items (offset, getpos(), consumed slice, callbacks), the final status, cdata_elem, the unconsumed
+     rawdata, the final offset and position *)
+  | 3, t :: _ =>
+      let '(its, g) := tokenize (fun v => v) (gstr t) in
+      L [slist s_item its; s_status (gs_status g); sopt sstr (gs_cd g); sstr (gs_rest g); snat (gs_off g);
+         s_pos (gs_pos g)]
   | _, _ => A (-1)
   end.
